@@ -3,6 +3,7 @@
 //
 //	exit 0: no assertion failed   exit 3: assertion failed or panic
 //	exit 4: the model violates an assumption (not a valid replay)
+//	exit 64: usage error / unknown harness (2 is what the Go runtime itself uses for fatal errors)
 package main
 
 import (
@@ -18,7 +19,7 @@ import (
 func main() {
 	if len(os.Args) < 2 {
 		fmt.Fprintln(os.Stderr, "usage: replay <harness>")
-		os.Exit(2)
+		os.Exit(64)
 	}
 	name := os.Args[1]
 	if name == "-list" {
@@ -35,7 +36,7 @@ func main() {
 	fn, ok := registry.Harnesses[name]
 	if !ok {
 		fmt.Fprintf(os.Stderr, "unknown harness %s\n", name)
-		os.Exit(2)
+		os.Exit(64)
 	}
 	code := 0
 	func() {
@@ -67,9 +68,6 @@ func main() {
 	sort.Strings(cs)
 	for _, c := range cs {
 		fmt.Printf("COVERED %s\n", c)
-	}
-	for _, l := range verifrt.Info {
-		fmt.Printf("INFO %s\n", l)
 	}
 	if code == 0 && len(verifrt.Failed) > 0 {
 		code = 3
